@@ -498,3 +498,183 @@ func gcd(a, b int) int {
 	}
 	return a
 }
+
+// GiantCase: one scaling to a target far too large to read completely (Scale is lazy: nothing is allocated); the
+// error/no-error decision, the bounds, the accessors and a sparse set of pixels (corners, edges of the symbol area,
+// block borders, a deterministic scatter) are compared with the pixel model.
+type GiantCase struct {
+	Source EncSpec    `json:"source"`
+	W      int        `json:"w"`
+	H      int        `json:"h"`
+	Fill   *ColorSpec `json:"fill,omitempty"`
+}
+
+func checkGiant(t TB, c GiantCase) {
+	noteCase("C09", "scale-giant", c)
+	const P, K = "C09", "scale-giant"
+	src, err, pv := encodeSpec(c.Source)
+	if pv != nil || err != nil || nilBarcode(src) {
+		failf(t, P, K, c, "source not encodable: %v %v", err, pv)
+	}
+	W, H, dims := src.Bounds().Dx(), src.Bounds().Dy(), int(src.Metadata().Dimensions)
+	var res barcode.Barcode
+	var fill color.Color
+	if pv := try(func() {
+		if c.Fill == nil {
+			res, err = barcode.Scale(src, c.W, c.H)
+		} else {
+			fill = c.Fill.Color()
+			res, err = barcode.ScaleWithFill(src, c.W, c.H, fill)
+		}
+	}); pv != nil {
+		failf(t, P, K, c, "Scale to %dx%d: %v", c.W, c.H, pv)
+	}
+	if c.Fill == nil {
+		fill = color.White
+		if bcCol, ok := src.(barcode.BarcodeColor); ok {
+			fill = bcCol.ColorScheme().Background
+		}
+	}
+	f := c.W / W
+	if dims == 2 && c.H/H < f {
+		f = c.H / H
+	}
+	if f < 1 {
+		if err == nil || !nilBarcode(res) {
+			failf(t, P, K, c, "scaling a %dx%d symbol to %dx%d must fail", W, H, c.W, c.H)
+		}
+		return
+	}
+	if err != nil || nilBarcode(res) {
+		failf(t, P, K, c, "scaling a %dx%d %dD symbol to %dx%d failed although factor %d fits: %v", W, H, dims, c.W, c.H, f, err)
+	}
+	if rb := res.Bounds(); rb != image.Rect(0, 0, c.W, c.H) {
+		failf(t, P, K, c, "result bounds %v, want (0,0)-(%d,%d)", rb, c.W, c.H)
+	}
+	if res.Content() != src.Content() || res.Metadata() != src.Metadata() {
+		failf(t, P, K, c, "Content()/Metadata() of the result differ from the source's")
+	}
+	mx, my := c.W-W*f, c.H-H*f
+	// sample coordinates: image corners, the borders of the symbol area for both admissible centrings, every block
+	// border of the first and last modules, and a scatter
+	xs := []int{0, 1, c.W - 1, c.W - 2, c.W / 2, mx / 2, mx/2 - 1, (mx + 1) / 2, (mx+1)/2 - 1, mx/2 + W*f, mx/2 + W*f - 1, (mx+1)/2 + W*f, (mx+1)/2 + W*f - 1}
+	ys := []int{0, c.H - 1, c.H / 2, my / 2, my/2 - 1, (my + 1) / 2, my/2 + H*f, my/2 + H*f - 1, (my+1)/2 + H*f - 1}
+	for k := 0; k < W && k < 40; k++ {
+		m := k * (W - 1) / max(min(W, 40)-1, 1)
+		xs = append(xs, mx/2+m*f, mx/2+m*f+f-1, (mx+1)/2+m*f+f/2)
+	}
+	for k := 0; k < H && k < 12; k++ {
+		m := k * (H - 1) / max(min(H, 12)-1, 1)
+		ys = append(ys, my/2+m*f, my/2+m*f+f-1)
+	}
+	x := uint64(c.W)*0x9E3779B97F4A7C15 ^ uint64(c.H)
+	for k := 0; k < 60; k++ {
+		x ^= x >> 29
+		x *= 0xBF58476D1CE4E5B9
+		x ^= x >> 32
+		xs = append(xs, int(x%uint64(c.W)))
+		ys = append(ys, int((x>>20)%uint64(c.H)))
+	}
+	matches := func(ox, oy int) string {
+		for _, y := range ys {
+			if y < 0 || y >= c.H {
+				continue
+			}
+			for _, x := range xs {
+				if x < 0 || x >= c.W {
+					continue
+				}
+				want := fill
+				inX := x >= ox && x < ox+W*f
+				if dims == 1 && inX {
+					want = src.At((x-ox)/f, 0)
+				} else if dims == 2 && inX && y >= oy && y < oy+H*f {
+					want = src.At((x-ox)/f, (y-oy)/f)
+				}
+				if got := res.At(x, y); got != want {
+					return fmt.Sprintf("pixel (%d,%d) is %v, model (offset %d,%d factor %d) says %v", x, y, got, ox, oy, f, want)
+				}
+			}
+		}
+		return ""
+	}
+	first := ""
+	var ppv any
+	ok := false
+	ppv = try(func() {
+		oys := []int{my / 2, (my + 1) / 2}
+		if dims == 1 {
+			oys = []int{0}
+		}
+		for _, ox := range []int{mx / 2, (mx + 1) / 2} {
+			for _, oy := range oys {
+				msg := matches(ox, oy)
+				if msg == "" {
+					ok = true
+					return
+				}
+				if first == "" {
+					first = msg
+				}
+			}
+		}
+	})
+	if ppv != nil {
+		failf(t, P, K, c, "reading pixels of the %dx%d result: %v", c.W, c.H, ppv)
+	}
+	if !ok {
+		failf(t, P, K, c, "%dx%d %dD source scaled to %dx%d: %s", W, H, dims, c.W, c.H, first)
+	}
+}
+
+func init() { register("scale-giant", func(t TB, c GiantCase) { checkGiant(t, c) }) }
+
+// TestC09Giant: "every requested width and height >= 1": poster- and banner-sized targets, targets beyond 2^31 and 2^32
+// pixels, extreme aspect ratios, sizes one below / at / above integer multiples of the symbol.
+func TestC09Giant(t *testing.T) {
+	st := NewStats("C09", "giant")
+	defer st.Flush()
+	ct := &collectTB{}
+	red := &ColorSpec{Model: "nrgba", V: [4]uint16{200, 10, 20, 128}}
+	sources := []EncSpec{
+		{Fam: "qr", Content: BStr("GIANT"), A: 1, B: 0}, {Fam: "datamatrix", Content: BStr("A")}, {Fam: "pdf417", Content: BStr("P"), A: 1},
+		{Fam: "aztec", Content: BStr("Az"), A: 33}, {Fam: "ean", Content: BStr("5901234123457")}, {Fam: "code128", Content: BStr("ab")}, {Fam: "itf", Content: BStr("12")},
+	}
+	var cases []GiantCase
+	for si, s := range sources {
+		bc, err, pv := encodeSpec(s)
+		if pv != nil || err != nil || nilBarcode(bc) {
+			t.Fatalf("giant source %d not encodable: %v %v", si, err, pv)
+		}
+		W, H := bc.Bounds().Dx(), bc.Bounds().Dy()
+		sizes := [][2]int{{46340, 46340}, {46341, 46341}, {65535, 65535}, {65536, 65536}, {65537, 65537}, {39732, 56173}, {141732, 20079}, {1 << 20, 1 << 12}, {1 << 12, 1 << 20},
+			{1 << 24, 1 << 8}, {3000000, 700}, {W * 1000, H * 1000}, {W*1000 - 1, H*1000 + 7}, {W*4097 + 1, H * 4096}, {1 << 31, max(H, 2)}, {1<<31 + 1, max(H, 3)}, {1<<32 + 5, max(H, 1)},
+			{W - 1, 1 << 20}, {W, 1 << 22}, {100003, 100003}}
+		for k, sz := range sizes {
+			g := GiantCase{Source: s, W: sz[0], H: sz[1]}
+			if (k+si)%3 == 0 {
+				g.Fill = red
+			}
+			cases = append(cases, g)
+		}
+	}
+	parallelFor(len(cases), 16, func(i int) {
+		if ct.Failed() {
+			return
+		}
+		ct.guard(func() {
+			checkGiant(ct, cases[i])
+			st.Eval()
+			st.NonTrivial(H(fmt.Sprintf("%+v", cases[i])))
+			if int64(cases[i].W)*int64(cases[i].H) > 1<<31 {
+				st.Class("target of more than 2^31 pixels (sampled)")
+			} else {
+				st.Class("giant target (sampled)")
+			}
+		})
+	})
+	st.Sample("giant", cases[1])
+	if ct.Failed() {
+		t.Fatalf("%s", ct.first)
+	}
+}
